@@ -70,11 +70,11 @@ def _norm(v):
 
 AC_DEPENDS = {"power_state": ["power"], "selected_mode": ["mode"], "active_mode": ["mode"], "selected_fan_speed": ["fan"], "active_fan_speed": ["fan"],
               "current_temperature": ["V"], "target_temperature": ["sp"], "min_target_temperature": ["lohi", "mode"], "max_target_temperature": ["lohi", "mode"],
-              "spill_state": ["spill"], "error_code": ["err"], "supported_modes": ["mode_bits"], "supported_fan_speeds": ["fan_bits"], "name": [],
+              "spill_state": ["spill"], "error_code": ["err"], "supported_modes": ["mode_bits"], "supported_fan_speeds": ["fan_bits"], "name": ["acname"],
               "on_timer": ["timers"], "off_timer": ["timers"]}
 ZONE_DEPENDS = {"power_state": ["zpower"], "control_method": ["zmethod"], "has_temp_sensor": ["zsensor"], "sensor_battery_status": ["zbatt"],
                 "current_temperature": ["zV", "zsensor"], "target_temperature": ["zsp", "zsensor"], "current_damper_percentage": ["zpct"],
-                "spill_active": ["zspill"], "name": []}
+                "spill_active": ["zspill"], "name": ["zname"]}
 
 
 def _shared_state(ctx, free):
@@ -124,6 +124,13 @@ def _shared_state(ctx, free):
             st["zV"] = ctx.int("zV", 0, 2000)
         elif f == "zspill":
             st["zspill"] = ctx.bits("zspill", 1)
+        elif f in ("zname", "acname"):
+            # a free three-byte name: any valid UTF-8 without NUL (blanks, multi-byte characters, ...)
+            from sx.utf8 import utf8_valid
+            nb = [ctx.byte(f"{f}{i}") for i in range(3)]
+            ctx.assume(utf8_valid(nb))
+            ctx.assume(sym_and(*[b != 0 for b in nb]))
+            st[f] = nb
     return st
 
 
@@ -131,20 +138,20 @@ def _installation(gen, st):
     inst = Installation(gen)
     a = st["ac"]
     if gen == 4:
-        inst.acs.append({"number": a, "name": "Unit", "start": 0, "count": 2, "mode_bits": st["mode_bits"], "fan_bits": st["fan_bits"],
+        inst.acs.append({"number": a, "name": st.get("acname", "Unit"), "start": 0, "count": 2, "mode_bits": st["mode_bits"], "fan_bits": st["fan_bits"],
                          "limits": (st["lo"], st["hi"]), "group_bits": 0b11})
         inst.ac_status[a] = r4.build_ac_status(a, st["power"], st["mode"], st["fan"], st["spill"], st["timer"], st["sp"], st["V"], st["err"])
         inst.zone_status[0] = r4.build_group_status(0, st["zpower"], st["zmethod"], st["zpct"], st["zbatt"], 1, st["zsp"], st["zsensor"], st["zV"], st["zspill"])
         inst.zone_status[1] = r4.build_group_status(1, 0, 0, 10, 0, 1, 20, 1, 700, 0)
     else:
-        inst.acs.append({"number": a, "name": "Unit", "start": 0, "count": 2, "mode_bits": st["mode_bits"], "fan_bits": st["fan_bits"],
+        inst.acs.append({"number": a, "name": st.get("acname", "Unit"), "start": 0, "count": 2, "mode_bits": st["mode_bits"], "fan_bits": st["fan_bits"],
                          "limits": (st["lo"], st["hi"], st["lo"], st["hi"])})
         inst.ac_status[a] = r5.build_ac_status(a, st["power"], st["mode"], st["fan"], st["sp"] * 10 - 100, 0, 0, st["spill"], st["timer"], st["V"], st["err"])
         from sx.values import sym_ite
         zsp_raw = sym_ite(st["zsensor"] == 1, st["zsp"] * 10 - 100, 0xFF)   # a zone without sensor has no set-point (vendor example: 0xFF)
         inst.zone_status[0] = r5.build_zone_status(0, st["zpower"], st["zmethod"], st["zpct"], zsp_raw, st["zsensor"], st["zV"], st["zspill"], st["zbatt"])
         inst.zone_status[1] = r5.build_zone_status(1, 0, 0, 10, 100, 1, 700, 0, 0)
-    inst.zones = {0: "Living", 1: "Küche"}
+    inst.zones = {0: st.get("zname", "Living"), 1: "Küche"}
     inst.timers[a] = st["timers"]
     inst.errors[a] = "ER: FFFE"
     return inst
